@@ -512,10 +512,10 @@ int main(int argc, char** argv) {
                    }
                  }, false});
   } else {
-    // C14 kernels: every length 0..130 (thorough: ..300)
-    S.push_back({"kernel_all_lengths", 131, 301, [](uint64_t i, vf::Rng& r) { kernel_pairs(i, r); }, false});
-    S.push_back({"kernel_random_pairs", 3000, 300000, [](uint64_t, vf::Rng& r) {
-                   size_t n = r.range(0, 200);
+    // C14 kernels: every length 0..130 (thorough: ..1100)
+    S.push_back({"kernel_all_lengths", 131, 1101, [](uint64_t i, vf::Rng& r) { kernel_pairs(i, r); }, false});
+    S.push_back({"kernel_random_pairs", 3000, 200000000, [](uint64_t, vf::Rng& r) {
+                   size_t n = r.below(16) ? r.range(0, 200) : r.range(200, 5000);
                    std::string a(n, 0), b;
                    for (auto& ch : a) ch = (char)r.below(r.coin() ? 256 : 2);
                    b = a;
@@ -528,8 +528,8 @@ int main(int argc, char** argv) {
                    vf::distinct(vf::hash_combine(vf::hash_str(a), vf::hash_str(b)));
                    cmp_pair(pa_, pb_, n, "random");
                  }});
-    S.push_back({"lookup_all_key_lengths", 131 * 4, 201 * 4 * 10, [](uint64_t i, vf::Rng& r) {
-                   size_t klen = (i / 4) % 201;
+    S.push_back({"lookup_all_key_lengths", 131 * 4, 521 * 4 * 200, [](uint64_t i, vf::Rng& r) {
+                   size_t klen = (i / 4) % 521;
                    bool with_map = i & 1, const_keys = i & 2;
                    {
                      su::PoolDoc d;
